@@ -18,6 +18,12 @@ abbrev Equiv {β : Type} [Inhabited β] := @Proofs.Equiv β _
 -- `ZeroLaws` (the laws about zero that are used) and `dkernel` (the dilated kernel extents) are
 -- defined, in this namespace, in Gonnx/Proofs/Conv.lean
 
+-- concrete instance shared by the non-vacuity examples below: N = 2, C = 2, a 3×4 image, M = 2 kernels of 2×2, a bias
+private def nv_A : Arith Int := ⟨0, (· + ·), (· * ·), (· - ·)⟩
+private def nv_x : Tensor Int := ⟨[2, 2, 3, 4], (List.range 48).map (fun (n : Nat) => (n : Int) - 20)⟩
+private def nv_w : Tensor Int := ⟨[2, 2, 2, 2], [1, 2, 3, 4, 5, 6, 7, 8, -1, 0, 1, 0, 2, -2, 3, -3]⟩
+private def nv_bias : Tensor Int := ⟨[2], [100, 200]⟩
+
 -- `hs` is part of the fixed statement; truncating and natural division agree also for `s = 0`
 set_option linter.unusedVariables false in
 /-- **Output shape** of every explicit-padding geometry is the ONNX one:
@@ -26,6 +32,10 @@ theorem outdim_eq_spec (inD k d pb pe s : Nat) (hs : 0 < s) (hk : 0 < k) (hd : 0
     (hfit : (k - 1) * d + 1 ≤ inD + pb + pe) :
     convOutDim inD (k + (k - 1) * (d - 1)) pb pe s = (((inD + pb + pe - ((k - 1) * d + 1)) / s + 1 : Nat) : Int) :=
   Proofs.Conv.outdim_eq_spec inD k d pb pe s hk hd hfit
+
+-- non-vacuity: input 7, kernel 3, dilation 2, pads 1 / 0, stride 2
+example : convOutDim 7 (3 + (3 - 1) * (2 - 1)) ((1 : Nat) : Int) ((0 : Nat) : Int) 2 = (((7 + 1 + 0 - ((3 - 1) * 2 + 1)) / 2 + 1 : Nat) : Int) :=
+  outdim_eq_spec 7 3 2 1 0 2 (by decide) (by decide) (by decide) (by decide)
 
 -- `hd`, `hl`, `hpos` are part of the fixed statement; the index bookkeeping holds without them
 set_option linter.unusedVariables false in
@@ -39,6 +49,13 @@ theorem dilatedKernel_get (zero : α) (w : Tensor α) (dil : List Nat) (hd : ∀
       else zero :=
   Proofs.Conv.dilatedKernel_get zero w dil idx hidx
 
+-- non-vacuity: the 2×2×2×2 kernel dilated by (2, 1), read at an in-range index
+example : (dilatedKernel 0 nv_w [2, 1]).get [1, 0, 2, 1] =
+      if (([1, 0, 2, 1].drop 2).zip [2, 1]).all (fun p => p.1 % p.2 = 0) then
+        nv_w.get ([1, 0, 2, 1].take 2 ++ (([1, 0, 2, 1].drop 2).zip [2, 1]).map (fun p => p.1 / p.2))
+      else 0 :=
+  dilatedKernel_get 0 nv_w [2, 1] (by decide) (by decide) (by simp [Proofs.Pos, nv_w]) [1, 0, 2, 1] (by decide)
+
 -- `hl`, `hl'` are part of the fixed statement; the index bookkeeping holds without them
 set_option linter.unusedVariables false in
 /-- zero padding: inside the original extent the input value, outside zero -/
@@ -50,6 +67,13 @@ theorem padInput_get (zero : α) (x : Tensor α) (pb pe : List Nat)
         x.get (idx.take 2 ++ ((idx.drop 2).zip pb).map (fun p => p.1 - p.2))
       else zero :=
   Proofs.Conv.padInput_get zero x pb pe idx hidx
+
+-- non-vacuity: the 2×2×3×4 input padded by (1, 0) before and (0, 2) after, read at an in-range index
+example : (padInput 0 nv_x [1, 0] [0, 2]).get [1, 1, 3, 2] =
+      if (([1, 1, 3, 2].drop 2).zip ((nv_x.shape.drop 2).zip [1, 0])).all (fun p => p.2.2 ≤ p.1 ∧ p.1 < p.2.2 + p.2.1) then
+        nv_x.get ([1, 1, 3, 2].take 2 ++ (([1, 1, 3, 2].drop 2).zip [1, 0]).map (fun p => p.1 - p.2))
+      else 0 :=
+  padInput_get 0 nv_x [1, 0] [0, 2] (by decide) (by decide) [1, 1, 3, 2] (by decide)
 
 /-- FALSE as first written (kept verbatim): auto_pad SAME_UPPER / SAME_LOWER give the ONNX pads whenever
 the needed padding is not negative. It fails when an input extent is 0: Go computes
@@ -81,6 +105,10 @@ theorem autopad_eq_spec_partial (mode : String) (hm : mode = "SAME_UPPER" ∨ mo
     autoPads mode inDims strides dk = (Spec.convPads mode [] inDims strides dk).map (fun (p : Nat) => (p : Int)) :=
   Proofs.Conv.autopad_eq_spec_partial mode hm inDims strides dk hl hl' hs hneed hInPos
 
+-- non-vacuity: two spatial axes, extents 5 and 4, strides 2 and 1, dilated kernel extents 3 and 2
+example : autoPads "SAME_LOWER" [5, 4] [2, 1] [3, 2] = (Spec.convPads "SAME_LOWER" [] [5, 4] [2, 1] [3, 2]).map (fun (p : Nat) => (p : Int)) :=
+  autopad_eq_spec_partial "SAME_LOWER" (Or.inr rfl) [5, 4] [2, 1] [3, 2] (by decide) (by decide) (by decide) (by decide) (by decide)
+
 -- `hWx`, `hWw` are part of the fixed statement; both sides read the inputs through `Tensor.get` only
 set_option linter.unusedVariables false in
 /-- **Conv = direct convolution** (partial), 1-D and 2-D, any N, C, M, any (non-square) spatial and
@@ -101,6 +129,14 @@ theorem conv_explicit_partial (A : Arith α) (hA : ZeroLaws A) (x w : Tensor α)
       Equiv m s :=
   Proofs.Conv.conv_explicit_partial A hA x w bias dil strides pads hWb hpx hpw hrank hdl hsl hpl hdp hsp hk2 s hs
 
+-- non-vacuity: N = 2, C = 2, M = 2, 3×4 image, 2×2 kernel, dilations (2, 1), strides (1, 2), pads 1 1 0 0, bias;
+-- the dilated kernel extents are 3 and 2, the kernel fits: every hypothesis is discharged
+example : ∃ m, convOp nv_A { autoPad := "NOTSET", dilations := [2, 1], strides := [1, 2], pads := [1, 1, 0, 0].map (fun (p : Nat) => (p : Int)) } nv_x nv_w (some nv_bias) = .ok m ∧
+      Equiv m ⟨[2, 2, 2, 2], [4, -38, -36, -76, 212, 182, 216, 203, 292, 490, 444, 788, 140, 206, 96, 203]⟩ :=
+  conv_explicit_partial nv_A ⟨Int.add_zero, Int.zero_mul, Int.mul_zero⟩ nv_x nv_w (some nv_bias) [2, 1] [1, 2] [1, 1, 0, 0]
+    rfl rfl (by intro b h; cases h; rfl) (by simp [Proofs.Pos, nv_x]) (by simp [Proofs.Pos, nv_w])
+    (by decide) (by decide) (by decide) (by decide) (by decide) (by decide) (by decide) _ (by decide)
+
 /-- the unguarded clause is false: a kernel of extent 1 with more than one channel is refused (known finding) -/
 theorem conv_counterexample_kernel_extent_1 :
     convOp (⟨0, (· + ·), (· * ·), (· - ·)⟩ : Arith Int) {} ⟨[1, 2, 2, 2], [1, 2, 3, 4, 5, 6, 7, 8]⟩ ⟨[1, 2, 1, 1], [1, 1]⟩ none = .error .broadcast ∧
@@ -115,6 +151,10 @@ theorem conv_counterexample_valid :
 theorem conv_refuses_rank (A : Arith α) (at0 : ConvAttrs) (x w : Tensor α) (bias : Option (Tensor α))
     (h : 4 < x.shape.length) : convOp A at0 x w bias = .error .inputInvalid :=
   Proofs.Conv.conv_refuses_rank A at0 x w bias h
+
+-- non-vacuity: a rank-5 input
+example : convOp nv_A {} ⟨[1, 1, 2, 2, 2], [1, 2, 3, 4, 5, 6, 7, 8]⟩ nv_w none = .error .inputInvalid :=
+  conv_refuses_rank nv_A {} ⟨[1, 1, 2, 2, 2], [1, 2, 3, 4, 5, 6, 7, 8]⟩ nv_w none (by decide)
 
 -- non-vacuity: a 2-D geometry with W > H, stride 2 on the width, asymmetric pads
 example : (Spec.conv (⟨0, (· + ·), (· * ·), (· - ·)⟩ : Arith Int) "NOTSET" [1, 1] [1, 2] [0, 1, 0, 0]
